@@ -267,7 +267,7 @@ def main():
             # the real code crashed (sanitizer abort / signal / exit(1)) on a generated case: concrete failing input
             cid, header, at = last_case(s.keep, True)
             first = next((l for l in s.herr.splitlines() if "ERROR" in l or "runtime error" in l or "Assertion" in l), s.herr[:300])
-            sig = "crash:" + re.sub(r"0x[0-9a-f]+", "ADDR", first)[:160]
+            sig = "crash:" + (re.sub(r"0x[0-9a-f]+", "ADDR", first)[:160] or ("after " + at.split(" ", 1)[-1].split(" ")[0] if tag.find("design") >= 0 or " design" in header else "signal"))
             if sig in reported:
                 continue
             reported.add(sig)
@@ -275,7 +275,7 @@ def main():
                                            ("was stopped by the sanitizer" if tag.startswith("asan") else "crashed"),
                                            "first_report": first, "stderr_tail": s.herr, "harness_rc": s.hrc, "case_header": header,
                                            "last_completed_step_before_the_crash": at, "timeout_diagnostics": s.diag, "harness_args": s.args, "case": cid,
-                                           "replay_cmd": "%s %s %s" % (s.harness, " ".join(s.args), cid)}, True, signature=sig)
+                                           "replay_cmd": "MALLOC_PERTURB_=165 %s %s %s" % (s.harness, " ".join(s.args), cid)}, True, signature=sig)
     if not chk.violations and not chk.known_hits and broken:
         what = []
         if proof_broken:
